@@ -17,12 +17,12 @@ RULE = ("continuous Line/CubicBezier paths of 1-6 segments built from headings: 
         "continuous, same start/end (open) or closed (closed), unit tangents at every joint (closing joint included) agree "
         "within 2e-5, every sampled point within maxjointsize of the input path, smooth input joints preserved, single-segment "
         "path returned unchanged. Non-trivial = at least one joint actually smoothed; distinct by case hash.")
-ASSUMPTIONS = ["180-degree reversals (corner angle > 179 deg) are excluded as the property says", "tangents at joints are computed from "
+ASSUMPTIONS = ["180-degree reversals (corner angle > 179.95 deg) are excluded as the property says", "tangents at joints are computed from "
                "reference derivatives with the one-sided-limit rule of C15",
                "distance to the input path is measured against a 4000-point flattening (slack = its chord sagitta bound + 1e-9*size)"]
 CONFIGS = ['scipy']
 BUDGET = {'quick': 6000, 'thorough': 100000}
-REQUIRED = ['joint:LL', 'joint:LC', 'joint:CL', 'joint:CC', 'closed', 'open', 'already_smooth_joint', 'single_segment', 'smoothed',
+REQUIRED = ['closing_joint_already_smooth', 'joint:LL', 'joint:LC', 'joint:CL', 'joint:CC', 'closed', 'open', 'already_smooth_joint', 'single_segment', 'smoothed',
             'cubic_coincident_end_control', 'closing_joint_smoothed']
 CASE_TIMEOUT = 60
 TIME_LIMIT = {'quick': 250, 'thorough': 3300}
@@ -42,7 +42,7 @@ def path_case(draw):
     for i in range(n):
         if i > 0:
             turn = draw(st.one_of(st.just(0.0), st.just(0.0), gen.floats_in(0.5, 179.0), gen.floats_in(0.5, 179.0),
-                                  st.sampled_from([90.0, 45.0, 135.0, 1.0, 170.0])))
+                                  st.sampled_from([90.0, 45.0, 135.0, 1.0, 170.0, 179.5, 179.9])))
             heading += math.radians(turn) * draw(st.sampled_from([1, -1]))
         L = mj * draw(st.one_of(st.sampled_from([0.05, 0.5, 1.0, 5.0, 50.0]), gen.floats_in(0.05, 50.0)))
         d_in = complex(math.cos(heading), math.sin(heading))
@@ -71,12 +71,22 @@ def path_case(draw):
             if kind == 'Cs':
                 pass
         cur = gen.C(specs[-1][-1])
-    closing = draw(st.sampled_from(['open', 'open', 'line', 'cubic'])) if n >= 2 else 'open'
+    closing = draw(st.sampled_from(['open', 'open', 'line', 'cubic', 'smooth_cubic'])) if n >= 2 else 'open'
     if closing != 'open':
         start = gen.C(specs[0][1])
         if abs(cur - start) > 0.05 * mj:
             if closing == 'line':
                 specs.append(['L', gen.P(cur), gen.P(start)])
+            elif closing == 'smooth_cubic':
+                # leaves the last segment along its end tangent and arrives at the start along the first segment's start
+                # tangent: both the joint before it and the closing joint are already smooth
+                t_end = end_tangent(specs[-1], 1)
+                t_start = end_tangent(specs[0], 0)
+                if t_end is None or t_start is None:
+                    specs.append(['L', gen.P(cur), gen.P(start)])
+                else:
+                    dd = abs(start - cur)
+                    specs.append(['C', gen.P(cur), gen.P(cur + 0.4 * dd * t_end), gen.P(start - 0.4 * dd * t_start), gen.P(start)])
             else:
                 specs.append(['C', gen.P(cur), gen.P(cur + (start - cur) * 0.3 + 0.2j * (start - cur)), gen.P(start - (start - cur) * 0.3 + 0.2j * (start - cur)), gen.P(start)])
         else:
@@ -129,7 +139,7 @@ def check(case, ctx):
     angles = {}
     for j in joints:
         angles[j] = joint_angle(tans_in[j - 1][1], tans_in[j][0])
-        if angles[j] > 179.0:
+        if angles[j] > 179.95:
             ctx.discard('180-degree reversal')
     path = ctx.lib('build', gen.build_path, specs)
     if not path.iscontinuous():
@@ -154,6 +164,8 @@ def check(case, ctx):
         ctx.count('joint:%s%s' % (specs[j - 1][0], specs[j][0]))
     if smooth_in:
         ctx.count('already_smooth_joint')
+    if closed and 0 in smooth_in:
+        ctx.count('closing_joint_already_smooth')
     if len(out) > n:
         ctx.count('smoothed')
         ctx.nontrivial()
